@@ -314,15 +314,18 @@ def main():
     if not m:
         raise ValueError("classify_raw_segments_at_barrier not found")
     body = strip_comments(m.group(1))
-    uses = [u.start() for u in re.finditer(r"\braw_segs\b", body)]
+    vm = re.search(r"let\s+mut\s+(\w+)\s*:\s*Vec<RawBufferedSegment>\s*=\s*Vec::new\(\)", body)
+    var = vm.group(1) if vm else "raw_segs"
+    uses = [u.start() for u in re.finditer(r"\b%s\b" % re.escape(var), body)]
     # expected uses in order: declaration, append in the drain loop, is_empty test, sort(), then the rest
     stmts = [body[u:u + 80].split(";")[0].split("{")[0].strip() for u in uses[:5]]
-    ok = (len(stmts) >= 5 and stmts[0].startswith("raw_segs: Vec<RawBufferedSegment> = Vec::new()")
-          and stmts[1].startswith("raw_segs.append(") and stmts[2].startswith("raw_segs.is_empty()")
-          and stmts[3] == "raw_segs.sort()")
+    stmts = [re.sub(r"\s+", " ", t.replace(var, "V")) for t in stmts]
+    ok = (len(stmts) >= 5 and stmts[0].startswith("V: Vec<RawBufferedSegment> = Vec::new()")
+          and stmts[1].startswith("V.append(") and stmts[2].startswith("V.is_empty()")
+          and stmts[3] == "V.sort()")
     w("/-- agc_compressor.rs `classify_raw_segments_at_barrier`: the drained vector is declared, filled by")
     w("    `append` from the per-worker buffers, tested for emptiness and then SORTED (`raw_segs.sort()`)")
-    w("    before any other statement reads it. First uses seen: %s -/" % json.dumps(stmts).replace("-/", "- /"))
+    w("    before any other statement reads it. First uses seen (V = the vector): %s -/" % json.dumps(stmts).replace("-/", "- /"))
     w("def classifySortsDrained : Bool := " + ("true" if ok else "false"))
     w("")
     w("end Ragc.Gen")
